@@ -227,6 +227,8 @@ def is_snapshot(value, pos, body):
     decls = [d for d in body.find('VarDecl') if d.name == v.ref]
     if len(decls) != 1 or not decls[0].kids or not is_ref(decls[0].kids[-1], pos):
         return False
+    if (decls[0].type or '').rstrip().endswith('&'):
+        return False        # a reference to the cursor is the cursor itself, not a saved position: restoring from it restores nothing
     for x in body.walk():
         b = x.bin
         if b and b[0] in ('=', '+=', '-=') and is_ref(b[1], v.ref):
